@@ -60,11 +60,16 @@ def be8 (n : Nat) : Bytes :=
 
 /-! ## JSON text of the stored numbers -/
 
-/-- Decimal digits of a number as ASCII bytes (`to_json_vec(&u64)`): no sign, no leading zero, `0` is `"0"`. -/
-def natDigits (n : Nat) : Bytes :=
-  if n < 10 then [48 + n] else natDigits (n / 10) ++ [48 + n % 10]
-termination_by n
-decreasing_by omega
+/-- `digitsAux fuel n`: the decimal digits of `n`, most significant first, by structural recursion on `fuel`
+(so that concrete instances reduce in the kernel); exact whenever `n < 10 ^ (fuel + 1)`. -/
+def digitsAux : Nat → Nat → Bytes
+  | 0, n => [48 + n]
+  | f + 1, n => if n < 10 then [48 + n] else digitsAux f (n / 10) ++ [48 + n % 10]
+
+/-- Decimal digits of a number as ASCII bytes (`to_json_vec(&u64)`): no sign, no leading zero, `0` is `"0"`.
+Satisfies `natDigits n = if n < 10 then [48 + n] else natDigits (n / 10) ++ [48 + n % 10]`
+(`natDigits_unfold`). -/
+def natDigits (n : Nat) : Bytes := digitsAux n n
 
 /-- Reading decimal digits, most significant first, into an accumulator; `none` on any other byte. -/
 def parseAcc : Bytes → Nat → Option Nat
@@ -172,23 +177,17 @@ def claimsKey (addr : String) : Bytes := mapKey NS.claims [] (strBytes addr)
 def hexDigit (n : Nat) : Char := if n < 10 then Char.ofNat (48 + n) else Char.ofNat (87 + n)
 
 /-- Lower-case hex, two digits per byte. -/
-def hex (b : Bytes) : String := String.ofList (b.flatMap fun x => [hexDigit (x / 16 % 16), hexDigit (x % 16)])
-
-/-- Lexicographic order on byte strings (the order of a `BTreeMap<Vec<u8>, _>` / of the chain's KV store). -/
-def bytesLt : Bytes → Bytes → Bool
-  | [], [] => false
-  | [], _ :: _ => true
-  | _ :: _, [] => false
-  | a :: as, b :: bs => if a < b then true else if b < a then false else bytesLt as bs
-
-/-- Entries in ascending key order. -/
-def sortStore (st : Store) : Store := st.mergeSort fun a b => !bytesLt b.1 a.1
+def hex (b : Bytes) : String :=
+  b.foldl (fun s x => (s.push (hexDigit (x / 16 % 16))).push (hexDigit (x % 16))) ""
 
 def renderVal : Val → String
   | .bytes b => hex b
   | .opaque => "*"
 
-def renderEntry (e : Bytes × Val) : String := hex e.1 ++ ":" ++ renderVal e.2
+/-- Rendered entries in ascending key order.  The order of a `BTreeMap<Vec<u8>, _>` / of the chain's KV store is
+the lexicographic order of the byte strings, which is the lexicographic order of their fixed-width hex texts. -/
+def sortedRendered (st : Store) : List String :=
+  ((st.map fun e => (hex e.1, renderVal e.2)).mergeSort fun a b => decide (a.1 ≤ b.1)).map fun p => p.1 ++ ":" ++ p.2
 
 /-- FNV-1a (64 bit) of the UTF-8 bytes of a string, as 16 hex digits (`common::hash_str`). -/
 def fnv1a (s : String) : String :=
@@ -202,16 +201,16 @@ def isChangelogKey (k : Bytes) : Bool :=
 
 /-- A dump of entries: in full up to `cap` entries, else `#<count>.<fnv1a of the full text>`. -/
 def renderDump (cap : Nat) (st : Store) : String :=
-  let full := ",".intercalate ((sortStore st).map renderEntry)
+  let full := ",".intercalate (sortedRendered st)
   if st.length ≤ cap then full else s!"#{st.length}.{fnv1a full}"
 
 /-- The observation field `rawkeys`: the published keys as the model lays them out (`T.` total key, `M.`
 `member_key` of the probe addresses, `P.` primary key of `MEMBERS` for the same addresses), the complete dump
 of the non-changelog entries (`D.`: key and value of every entry, `*` for an unmodelled value) and the dump of
-the changelog entries (`C.`: in full up to 40 entries, else count and hash). -/
+the changelog entries (`C.`: in full up to 16 entries, else count and hash). -/
 def renderRawKeys (probes : List String) (st : Store) : String :=
   let prim := st.filter fun e => !isChangelogKey e.1
   let logs := st.filter fun e => isChangelogKey e.1
-  s!"T.{hex totalKey}/M.{"+".intercalate (probes.map fun a => hex (memberKey a))}/P.{"+".intercalate (probes.map fun a => hex (membersPrimaryKey a))}/D.{renderDump 1000000 prim}/C.{renderDump 40 logs}"
+  s!"T.{hex totalKey}/M.{"+".intercalate (probes.map fun a => hex (memberKey a))}/P.{"+".intercalate (probes.map fun a => hex (membersPrimaryKey a))}/D.{renderDump 1000000 prim}/C.{renderDump 16 logs}"
 
 end CwPlus.RawStore
